@@ -908,7 +908,7 @@ func c18Bind(c *Ctx) {
 		if _, isMap := fn.Params[0].Type().Underlying().(*types.Map); !isMap {
 			continue
 		}
-		var m, u, dec *ssa.Call
+		var m, u, dec, viaHelper *ssa.Call
 		var opts []*ssa.Call
 		ir.EachInstr(fn, func(_ *ssa.BasicBlock, _ int, in ssa.Instruction) {
 			if call, ok := in.(*ssa.Call); ok {
@@ -923,9 +923,42 @@ func c18Bind(c *Ctx) {
 					dec = call
 				case "(*encoding/json.Decoder).UseNumber", "(*encoding/json.Decoder).DisallowUnknownFields":
 					opts = append(opts, call)
+				default:
+					// the decoding half in a helper handed the bytes and the target (decodeArguments(data, target))
+					if sc := ir.StaticCallee(call); sc != nil && c.P.IsLib(sc) && len(call.Call.Args) == 2 && ir.Unwrap(call.Call.Args[1]) == ssa.Value(fn.Params[1]) {
+						ir.EachInstr(sc, func(_ *ssa.BasicBlock, _ int, hin ssa.Instruction) {
+							hc, ok := hin.(*ssa.Call)
+							if !ok {
+								return
+							}
+							switch ir.CallName(hc) {
+							case "encoding/json.Unmarshal":
+								if ir.Unwrap(hc.Call.Args[1]) == ssa.Value(sc.Params[1]) {
+									viaHelper = call
+								}
+							case "(*encoding/json.Decoder).Decode":
+								if ir.Unwrap(hc.Call.Args[len(hc.Call.Args)-1]) == ssa.Value(sc.Params[1]) {
+									viaHelper = call
+								}
+							case "(*encoding/json.Decoder).UseNumber", "(*encoding/json.Decoder).DisallowUnknownFields":
+								opts = append(opts, hc)
+							}
+						})
+					}
 				}
 			}
 		})
+		if m != nil && u == nil && dec == nil && viaHelper != nil {
+			binder = fn
+			oc := originCall(viaHelper.Call.Args[0])
+			c.R.Check(oc == m && len(opts) == 0, "R-bind", "binder "+fname(fn), c.Pos(viaHelper.Pos()),
+				"arguments are bound by Marshal(arguments) -> decode with encoding/json's default rules into the target",
+				sprintf("%s does not bind by a plain JSON round trip of the very arguments map into its target (decoder options: %d)", fname(fn), len(opts)))
+			c.R.Check(ir.Unwrap(m.Call.Args[0]) == ssa.Value(fn.Params[0]), "R-bind", "binder "+fname(fn)+": arguments verbatim", c.Pos(m.Pos()),
+				"the map that is marshalled is the arguments map the caller sent, untouched",
+				sprintf("%s rewrites the arguments before binding them", fname(fn)))
+			continue
+		}
 		if m != nil && u == nil && dec != nil && ir.Unwrap(dec.Call.Args[len(dec.Call.Args)-1]) == ssa.Value(fn.Params[1]) {
 			// a binder that decodes through a json.Decoder: equivalent to Unmarshal only with the decoder's defaults
 			binder = fn
